@@ -893,6 +893,15 @@ func TestReplay(t *testing.T) {
 	}
 	c := ev.New("C09", "replay", "fault_enumeration")
 	t.Cleanup(c.Flush)
+	if doc.Check == "reshrink" {
+		var rc reCase
+		if err := json.Unmarshal(doc.Data, &rc); err != nil {
+			t.Fatal(err)
+		}
+		c.Case()
+		runReCase(t, c, rc)
+		return
+	}
 	var sc shrinkCase
 	if err := json.Unmarshal(doc.Data, &sc); err != nil {
 		t.Fatal(err)
